@@ -962,7 +962,13 @@ fn pass_evaluated(m: &Model, ctx: &mut Ctx) {
         member("e", Val::none(), coll("SetOf", seq("Sequence", vec![member("e1", tag(7), leaf())]), Val::none())),
         member("f", Val::none(), coll("SequenceOf", coll("SequenceOf", leaf(), tag(9)), Val::none())),
     ]);
-    let tld = wrap("Type", named("ToplevelTypeDefinition", vec![("comments", Val::Str(String::new())), ("tag", tag(1)), ("name", Val::Str("T".into())), ("ty", ty), ("parameterization", Val::none()), ("module_header", Val::none())]));
+    // a plain type assignment and a parameterized one (`T {P} ::= ..`): the linker builds every instance from a copy of the
+    // template's type, so the tags written inside a template must have met the module default as well
+    for parameterized in [false, true] {
+    let ty = ty.clone();
+    let positions: Vec<(i128, String)> = positions.iter().map(|(i, w)| (*i, if parameterized { format!("{} (parameterized assignment)", w) } else { w.to_string() })).collect();
+    let parameterization = if parameterized { Val::some(named("Parameterization", vec![("parameters", Val::List(vec![Val::Opaque("dummy parameter".into())]))])) } else { Val::none() };
+    let tld = wrap("Type", named("ToplevelTypeDefinition", vec![("comments", Val::Str(String::new())), ("tag", tag(1)), ("name", Val::Str("T".into())), ("ty", ty), ("parameterization", parameterization), ("module_header", Val::none())]));
     let params: Vec<String> = top.sig.inputs.iter().filter_map(|a| match a { syn::FnArg::Typed(t) => Some(tok(&t.pat)), _ => None }).collect();
     let mut env = Env::new();
     env.insert("self".into(), tld);
@@ -971,6 +977,7 @@ fn pass_evaluated(m: &Model, ctx: &mut Ctx) {
         ctx.fail_closed(rule, &format!("[tagging pass]: {}", e));
         return;
     }
+    #[allow(clippy::items_after_statements)]
     fn tags(v: &Val, out: &mut Vec<Val>) {
         match v {
             Val::Ctor(n, _, _) if n == "AsnTag" => out.push(v.clone()),
@@ -994,5 +1001,6 @@ fn pass_evaluated(m: &Model, ctx: &mut Ctx) {
         } else if class != Some(Val::ctor("Application")) {
             ctx.violate(rule, &format!("pass-evaluated:class-changed:{}", what.replace(' ', "-")), &top.file, top.line, &format!("the tagging pass changes the class of the tag on {}", what));
         }
+    }
     }
 }
